@@ -2,6 +2,7 @@ package main
 
 import (
 	"fmt"
+	"go/constant"
 	"go/types"
 	"sort"
 	"strings"
@@ -870,45 +871,52 @@ func (c *Ctx) plainDocument() {
 	c.Fn("PlainDocument")
 	doc := f.Params[0].Name()
 	var why []string
-	n := 0
-	allInstrs(f, func(b *ssa.BasicBlock, in ssa.Instruction) {
-		mu, ok := in.(*ssa.MapUpdate)
-		if !ok {
-			return
-		}
-		n++
-		kx, isK := mu.Key.(*ssa.Extract)
-		vx, isV := mu.Value.(*ssa.Extract)
-		if !isK || !isV || kx.Tuple != vx.Tuple || kx.Index != 1 || vx.Index != 2 {
-			why = append(why, "the copy does not store an entry under its own key with its own value")
-			return
-		}
-		notMarker, notThunk := false, false
-		for _, fc := range relFacts(factsAt(b)) {
-			if fc.x == ssa.Value(kx) && fc.r == relNE {
-				if s, isS := constString(fc.y); isS && s == "<-" {
-					notMarker = true
-				}
-			}
-		}
-		for _, fc := range factsAt(b) {
-			if ex, isEx := fc.cond.(*ssa.Extract); isEx && ex.Index == 1 && !fc.truth {
-				if ta, isTA := ex.Tuple.(*ssa.TypeAssert); isTA && ta.X == ssa.Value(vx) && isThunkType(ta.AssertedType) {
-					notThunk = true
-				}
-			}
-		}
-		if !notMarker || !notThunk {
-			why = append(why, fmt.Sprintf("the copy can store an engine entry (marker excluded=%v, lazy CTE excluded=%v)", notMarker, notThunk))
-		}
-	})
-	if n != 1 {
-		why = append(why, fmt.Sprintf("%d stores into the copy (1 expected)", n))
-	}
 	paths, err := WalkFunc(f, WalkCfg{MaxVisits: 2, MaxPaths: 4000})
 	if err != nil {
 		c.Unknown("c12.plain-document", "PlainDocument", c.P.Pos(f.Pos()), err.Error())
 		return
+	}
+	// every store into the copy (in PlainDocument or in a helper it was split into: the walker inlines those):
+	// the entry's own key and value, on a path that has already excluded the marker key and a lazy CTE value
+	stores := map[ssa.Instruction]bool{}
+	for _, p := range paths {
+		for _, e := range p.Effects {
+			if e.Kind != "mapupdate" || len(e.Args) != 3 {
+				continue
+			}
+			stores[e.Instr] = true
+			k, v := e.Args[1], e.Args[2]
+			if k == nil || v == nil || k.Op != "ext" || v.Op != "ext" || k.Name != "1" || v.Name != "2" || k.Args[0].Op != "next" || k.Args[0].String() != v.Args[0].String() {
+				why = append(why, "the copy does not store an entry under its own key with its own value")
+				continue
+			}
+			notMarker, notThunk := false, false
+			for i := 0; i < e.NAsg && i < len(p.Order); i++ {
+				kt := p.KeyTerm[p.Order[i]]
+				val := p.Asg[p.Order[i]]
+				if kt == nil || val == nil || val.Kind() != constant.Bool || constant.BoolVal(val) {
+					continue
+				}
+				if kt.Op == "bin" && kt.Name == "==" && len(kt.Args) == 2 {
+					for j := 0; j < 2; j++ {
+						if kt.Args[j].String() == k.String() && kt.Args[1-j].String() == `c:"<-"` {
+							notMarker = true
+						}
+					}
+				}
+				if kt.Op == "ext" && kt.Name == "1" && kt.Args[0].Op == "assertok" && kt.Args[0].Args[0].String() == v.String() {
+					if ta, isTA := kt.Args[0].V.(*ssa.TypeAssert); isTA && isThunkType(ta.AssertedType) {
+						notThunk = true
+					}
+				}
+			}
+			if !notMarker || !notThunk {
+				why = append(why, fmt.Sprintf("the copy can store an engine entry (marker excluded=%v, lazy CTE excluded=%v) at %s", notMarker, notThunk, c.P.Pos(e.Instr.Pos())))
+			}
+		}
+	}
+	if len(stores) == 0 {
+		why = append(why, "no store into the copy found")
 	}
 	nSelf := 0
 	for _, p := range paths {
